@@ -1,5 +1,6 @@
 """C01 — decimal string->float parsing is correctly rounded."""
 import gens
+import vlib
 from props.common import TRUSTED_BASE, ASSUMPTIONS
 
 ID = "C01"
@@ -37,3 +38,25 @@ def streams(tier, rng, fs, profile):
 def nontrivial(op, res):
     t = res.split(" ")
     return t[0] == "ok" and t[1] not in ("0", "80000000", "8000000000000000", "nan")
+
+
+def post(ctx, bins):
+    return sweep_post(ctx, bins)
+
+
+def sweep_post(ctx, bins):
+    """thorough tier: the shortest and the 9-digit text of every finite f32 (std formatting) must parse back to the same bits"""
+    if ctx["tier"] != "thorough":
+        return []
+    viol = []
+    total = 0
+    for (fs, profile), binp in sorted(bins.items()):
+        if fs not in ("default", "compact"):
+            continue
+        ops = vlib.sweep_ops("xpf", "f32", 0, 0x7f800000, 64) + vlib.sweep_ops("xpf", "f64", 0x3ff0000000000000, 0x3ff0000000000000 + 40000000, 16)
+        res = vlib.run_sweeps(binp, ops)
+        v, n = vlib.sweep_violations(res, fs, profile, lambda op, first: "xpf %s %d 1" % (op.split(" ")[1], int(first, 16)))
+        viol += v
+        total += n
+    ctx["post_evaluations"] = ctx.get("post_evaluations", 0) + total
+    return viol
